@@ -57,6 +57,7 @@ class FnScan:
         self.captures = set()      # (attribute, parameter): attribute of self initialised as an alias of a parameter
         self.global_rng = set()    # np.random.<fn> names
         self.seeded = False
+        self.paths = set()         # (root, attribute) through which an in-place write goes
         self.rng_args = []         # source text of the argument of every default_rng(...) call
         self.seed_forward = []     # (callee, source text of the actual argument bound to the callee's `seed` parameter)
         self.returns = set()       # parameters the returned value may be (a view of)
@@ -120,8 +121,19 @@ class FnScan:
         return set()
 
     # ---- statements
-    def w(self, roots, kind, node, direct=None):
+    @staticmethod
+    def _first_attr(node):
+        """attribute of the base object a write goes through: `plane.opd[...]`, `plane.tilt.append`, `self._opd` -> 'opd', 'tilt', '_opd'"""
+        last = None
+        while isinstance(node, (ast.Attribute, ast.Subscript, ast.Call)):
+            if isinstance(node, ast.Attribute): last = node.attr; node = node.value
+            elif isinstance(node, ast.Subscript): node = node.value
+            else: node = node.func
+        return last
+
+    def w(self, roots, kind, node, direct=None, path=None):
         for r in roots:
+            if path is not None and not (self.is_init and r == 'self'): self.paths.add((r, path))
             if self.is_init and r == 'self': continue       # the object under construction is not caller state
             # `**kwargs` / `*args` are fresh containers built by the call: mutating the container itself is not an effect
             if r in self.varparams and isinstance(direct, ast.Name) and direct.id == r: continue
@@ -166,7 +178,7 @@ class FnScan:
             recv = set()
             if isinstance(c.func, ast.Attribute):
                 recv = self.roots(c.func.value, st)
-                if n in WRITE_METHODS and not fsrc.startswith(('np.', 'numpy.')): self.w(recv, '.' + n + '()', c, c.func.value)
+                if n in WRITE_METHODS and not fsrc.startswith(('np.', 'numpy.')): self.w(recv, '.' + n + '()', c, c.func.value, path=self._first_attr(c.func.value))
             args = [(i, self.roots(a, st)) for i, a in enumerate(c.args)] + [(kw.arg, self.roots(kw.value, st)) for kw in c.keywords if kw.arg]
             self.calls.append((n, args, recv, c))
 
@@ -181,10 +193,10 @@ class FnScan:
         elif isinstance(target, ast.Starred):
             self.assign(target.value, value_roots, st, node)
         elif isinstance(target, ast.Subscript):
-            self.w(self.roots(target.value, st), 'x[...] =', node, target.value)
+            self.w(self.roots(target.value, st), 'x[...] =', node, target.value, path=self._first_attr(target.value))
         elif isinstance(target, ast.Attribute):
             base = self.roots(target.value, st)
-            self.w(base, 'x.attr =', node)
+            self.w(base, 'x.attr =', node, path=self._first_attr(target) if isinstance(target.value, ast.Name) else self._first_attr(target.value))
             if isinstance(target.value, ast.Name) and target.value.id == 'self':
                 for r in value_roots:
                     if r in self.params and r != 'self': self.captures.add((target.attr, r))
@@ -217,8 +229,8 @@ class FnScan:
             self.visit_calls(s.value, st)
             t = s.target
             if isinstance(t, ast.Name): self.w(self.roots(t, st), 'x op= (in place on ndarray)', s)
-            elif isinstance(t, ast.Subscript): self.w(self.roots(t.value, st), 'x[...] op=', s)
-            elif isinstance(t, ast.Attribute): self.w(self.roots(t.value, st), 'x.attr op=', s)
+            elif isinstance(t, ast.Subscript): self.w(self.roots(t.value, st), 'x[...] op=', s, path=self._first_attr(t.value))
+            elif isinstance(t, ast.Attribute): self.w(self.roots(t.value, st), 'x.attr op=', s, path=self._first_attr(t))
             return st
         if isinstance(s, ast.If):
             self.visit_calls(s.test, st)
@@ -437,6 +449,7 @@ def scan(repo):
         rows[q]['params'] = s.params
         rows[q]['sites'] = sorted(s.writes, key=lambda t: t[2])
         rows[q]['rng_args'] = list(s.rng_args); rows[q]['seed_forward'] = sorted(set(s.seed_forward))
+        rows[q]['paths'] = sorted((r, a.lstrip('_')) for r, a in s.paths if a)
     return rows, sorted(caches), sorted(module_state)
 
 
@@ -460,6 +473,8 @@ structure EffRow where
   rngArgs : List String := []
   /-- calls to functions that take a `seed`: (callee, source text of the argument bound to its `seed`) -/
   seedForward : List (String × String) := []
+  /-- (parameter slot, attribute) through which the function's own in-place write sites go (`self.opd`, `self.tilt`) -/
+  writePaths : List (String × String) := []
 deriving Repr, DecidableEq
 ''']
     lines = []
@@ -481,7 +496,8 @@ deriving Repr, DecidableEq
             'true' if r['rng'] else 'false', 'true' if r['seeded'] else 'false',
             ', '.join(_s(x) for x in cw), ', '.join(_s(x) for x in gw),
             ((', rngArgs := [%s]' % ', '.join(_s(x) for x in r['rng_args'])) if r['rng_args'] else '') +
-            ((', seedForward := [%s]' % ', '.join(f'({_s(a)}, {_s(b)})' for a, b in r['seed_forward'])) if r['seed_forward'] else '')))
+            ((', seedForward := [%s]' % ', '.join(f'({_s(a)}, {_s(b)})' for a, b in r['seed_forward'])) if r['seed_forward'] else '') +
+            ((', writePaths := [%s]' % ', '.join(f'({_s(a)}, {_s(b)})' for a, b in sorted(set(r['paths'])))) if r['paths'] else '')))
         if pw or cw or gw or r['rng']:
             notes.append(f"{q}: writes {sorted(pw)} cache {cw} globals {gw} rng {sorted(r['rng'])}")
     out.append('def effTable : List EffRow := [\n' + ',\n'.join(lines) + '\n]\n')
